@@ -10,6 +10,7 @@ import (
 	"fmt"
 	"math/rand"
 	"sort"
+	"sync"
 	"sync/atomic"
 	"time"
 
@@ -138,7 +139,7 @@ func init() {
 		// ids): what the server answers a simulator's frame does not depend on them
 		stopNoise := make(chan struct{})
 		defer close(stopNoise)
-		for k := 0; k < 3; k++ {
+		for k := 0; k < 6; k++ {
 			np := []byte{0x01, 0x32, 0x00, 0x00, 0x09, byte(0x10 + k)}
 			nt := l.dial(np, k%2)
 			if k%2 == 1 {
@@ -169,7 +170,9 @@ func init() {
 					if _, err := nt.conn.Write(nt.frame(id, body)); err != nil {
 						return
 					}
-					time.Sleep(50 * time.Microsecond)
+					if rr.Intn(64) == 0 {
+						time.Sleep(20 * time.Microsecond)
+					}
 				}
 			}(nt, r.Int63())
 		}
@@ -320,6 +323,71 @@ func init() {
 			}
 			t.close(false)
 			time.Sleep(3 * time.Millisecond)
+		}
+		// a fleet: four simulated terminals authenticate 2000 times each, all at once, every frame answered as ExpectedReply says.
+		// Every reply is compared here; a sample of them, and every one that differs from the prediction, goes to Trace_Terminal
+		{
+			var fleet []gk
+			for _, k := range keys {
+				if len(fleet) < 4 && len(k.phone) >= 4 {
+					fleet = append(fleet, k)
+				}
+			}
+			var fw sync.WaitGroup
+			var emu sync.Mutex
+			for fi, k := range fleet {
+				fw.Add(1)
+				go func(fi int, k gk) {
+					defer fw.Done()
+					sim := sims[k]
+					n := 12
+					if k.ver == 3 {
+						n = 20
+					}
+					digits := append(make([]byte, n-len(k.phone)), []byte(k.phone)...)
+					bcd := make([]byte, n/2)
+					for i := range bcd {
+						bcd[i] = digits[2*i]<<4 | digits[2*i+1]
+					}
+					t := l.dial(bcd, map[bool]int{true: 1, false: 0}[k.ver == 3])
+					var progress atomic.Int64
+					l.muted.Store(t.idx, &progress)
+					const rounds = 2000
+					frames := make([][]byte, rounds)
+					code := asciiDigits(bcd) // the authentication code the server hands out at registration: the phone number
+					body := code
+					if k.ver == 3 {
+						body = append(append([]byte{byte(len(code))}, code...), make([]byte, 35)...)
+					}
+					for i := range frames {
+						frames[i] = sim.CreateCommandData(consts.T0102RegisterAuth, body)
+					}
+					go func() {
+						for _, f := range frames {
+							t.conn.Write(f)
+						}
+					}()
+					for i := 0; i < rounds; i++ {
+						var live []byte
+						select {
+						case live = <-t.recvCh:
+						case <-time.After(8 * time.Second):
+							i = rounds
+							continue
+						}
+						pred := sim.ExpectedReply(uint16(i), hex.EncodeToString(frames[i]))
+						if !bytes.Equal(pred, live) || i%97 == 0 {
+							dv, _ := decodeView(frames[i])
+							emu.Lock()
+							out.put(c20Event{Ver: k.ver, Phone: B(k.phone), Cmd: 0x0102, Idx: dv.Serial, Frame: frames[i], Kind: "fleet", HasPred: true, Pred: pred, Pser: i,
+								HasLive: true, Live: live, LivePser: i, BodyOk: true, PrevSame: true})
+							emu.Unlock()
+						}
+					}
+					t.close(false)
+				}(fi, k)
+			}
+			fw.Wait()
 		}
 	}
 }
